@@ -82,6 +82,16 @@ int32_t matrixSslValidatePeerCerts(ssl_t *ssl,
     psCheckSetPathLenFailure(ssl, ssl->sec.cert);
     rc = psCheckValidationResult(ssl,
             ssl->sec.cert);
+    if (rc >= 0 && (ssl->keys == NULL || ssl->keys->CAcerts == NULL))
+    {
+        /* Without CA certificates matrixValidateCertsExt only checks that
+           the chain ends in a self-signed certificate.  As in the
+           TLS <= 1.2 path, a chain that no local trust anchor has
+           authenticated is unknown_ca (a user callback may still decide) */
+        psTraceInfo("WARNING: Valid self-signed cert or cert chain but no local authentication\n");
+        ssl->err = SSL_ALERT_UNKNOWN_CA;
+        rc = MATRIXSSL_ERROR;
+    }
     if (validateRc < 0 && rc >= 0)
     {
         /* The validator failed without leaving a verdict in any authStatus
